@@ -171,10 +171,15 @@ def stream_histories(rng, n, length=12):
                 ops.append('reset')
             elif r < 0.2:
                 ops.extend(reach_state(rng, rich=False)[-2:])
+            elif r < 0.27:
+                # a call cut short by a bus error is part of the history too
+                ops.append(rng.choice(['selftest', rand_request(rng)]) + ' !%d' % rng.randrange(12))
+            elif r < 0.34:
+                ops.append('int drdy:%d fwm:%d ffull:%d orient:%d step:%d latch:%d' % tuple(rng.randrange(2) for _ in range(6)))
             else:
                 ops.append(rand_request(rng))
         hdr = 'pos=%s neg=%s' % (hexs(sample6(rng, True)), hexs(sample6(rng, False)))
-        out.append(case('h%d' % i, rng.choice(['i2c', 'spi']), ops, hdr))
+        out.append(case('h%d' % i, ctor_for(rng, ops), ops, hdr))
     return out
 
 
@@ -277,7 +282,7 @@ def stream_getters(rng, tier):
             low = [0x90] + [0] * 24
             low[0x12] = v & 0xFF
             low[0x13] = v >> 8
-            out.append(case('g%d' % n, 'i2c', ['fifolen'], 'q low=' + hexs(low)))
+            out.append(case('g%d' % n, 'i2c', ['fifolen'], 'low=' + hexs(low)))
             n += 1
     return out
 
@@ -302,7 +307,7 @@ def stream_accel(rng, tier):
             low = [0x90, 0, 0, 0] + d + [0] * 15
             sc = n % 4
             ops = ['unscaled', 'acc scale:%d' % sc, 'data', 'unscaled']
-            out.append(case('a%d' % n, 'i2c', ops, 'q low=' + hexs(low)))
+            out.append(case('a%d' % n, 'i2c', ops, 'low=' + hexs(low)))
             n += 1
     # range tracking through histories of accepted / rejected / failed requests, self tests, resets
     for i in range(400 if tier == 'quick' else 6000):
@@ -586,6 +591,59 @@ def stream_selftest(rng, tier):
     return out
 
 
+SINGLE = {
+    # interrupt -> (enable preamble, [(request changing exactly one parameter register)])
+    'gen1': (['gen1 src:1', 'int gen1:1'],
+             ['gen1 axes:1,0,0', 'gen1 hyst:1', 'gen1 crit:1', 'gen1 logic:1', 'gen1 thr:1', 'gen1 dur:256', 'gen1 dur:1',
+              'gen1 refacc:1,0,0', 'gen1 refacc:256,0,0', 'gen1 refacc:0,1,0', 'gen1 refacc:0,256,0',
+              'gen1 refacc:0,0,1', 'gen1 refacc:0,0,256', 'gen1 refacc:0,0,-2048', 'gen1 ref:2']),
+    'gen2': (['gen2 src:1', 'int gen2:1'],
+             ['gen2 axes:0,0,1', 'gen2 hyst:2', 'gen2 crit:1', 'gen2 logic:1', 'gen2 thr:1', 'gen2 dur:256', 'gen2 dur:1',
+              'gen2 refacc:1,0,0', 'gen2 refacc:256,0,0', 'gen2 refacc:0,1,0', 'gen2 refacc:0,256,0',
+              'gen2 refacc:0,0,1', 'gen2 refacc:0,0,256', 'gen2 refacc:0,0,512']),
+    'actch': (['act src:1', 'int actch:1'], ['act thr:1', 'act axes:1,0,0', 'act obs:1']),
+    'stap': (['int stap:1'], ['tap sens:1', 'tap axis:1', 'tap min:1', 'tap dtap:0', 'tap max:0']),
+    'dtap': (['int dtap:1'], ['tap sens:1', 'tap axis:1', 'tap min:1', 'tap dtap:0', 'tap max:0']),
+    'orient': (['int orient:1'],
+               ['ori axes:1,0,0', 'ori src:2', 'ori ref:1', 'ori thr:1', 'ori dur:1', 'ori refacc:1,0,0', 'ori refacc:256,0,0',
+                'ori refacc:0,1,0', 'ori refacc:0,256,0', 'ori refacc:0,0,1', 'ori refacc:0,0,256', 'ori refacc:0,0,512',
+                'ori refacc:0,0,-2048']),
+    'wkup': (['wkup axes:1,0,0'], ['wkup thr:1', 'wkup refacc:1,0,0', 'wkup refacc:0,1,0', 'wkup refacc:0,0,1', 'wkup n:3',
+                                  'wkup ref:1', 'wkup axes:0,0,0', 'wkup axes:0,1,0', 'wkup axes:0,0,0 thr:9']),
+    'fwm': (['int fwm:1'], ['fifo wm:1', 'fifo wm:256', 'fifo wm:257', 'fifo axes:1,0,0', 'fifo rddis:1', 'fifo wm:5 rddis:1']),
+}
+
+
+def stream_single_param(rng, tier):
+    """each interrupt enabled (alone, and together with others), then a request that changes exactly one
+    parameter register of it - from reset contents and from a second, non-default content"""
+    out = []
+    n = 0
+    for name, (pre, reqs) in SINGLE.items():
+        for r in reqs:
+            for variant in range(3):
+                ops = list(pre)
+                if variant == 1:
+                    # non-default background: apply another single change first
+                    ops.append(rng.choice(reqs))
+                if variant == 2:
+                    ops = ['int drdy:1 ffull:1 step:1 latch:1', 'wkup axes:0,1,1'] + ops + ['pin %s' % rand_setter(rng, 'pin')]
+                ops.append(r)
+                ops.append(r)          # re-applying the same request: nothing may be written
+                out.append(case('sp%d' % n, rng.choice(['i2c', 'spi']), ops))
+                n += 1
+    # pin mapping with each interrupt enabled
+    pinmap = {'gen1': 'gen1', 'gen2': 'gen2', 'actch': 'actch', 'stap': 'tap', 'dtap': 'tap', 'orient': 'orient',
+              'wkup': 'wkup', 'fwm': 'fwm'}
+    for name, (pre, _) in SINGLE.items():
+        for pins in range(4):
+            for io in (None, 'int1:2', 'int2:3'):
+                req = 'pin %s:%d' % (pinmap[name], pins) + (' ' + io if io else '')
+                out.append(case('sp%d' % n, 'i2c', ['int drdy:1 step:1'] + pre + [req, req, 'pin']))
+                n += 1
+    return out
+
+
 def rand_op(rng):
     r = rng.random()
     if r < 0.55:
@@ -613,6 +671,10 @@ def stream_reset(rng, tier):
                                               hexs([rng.randrange(256) for _ in range(20)]))
         out.append(case('r%da' % i, ctor, hist + ['reset'] + follow, hdr))
         out.append(case('r%db' % i, ctor, follow, hdr))
+        if i % 4 == 0:
+            # the reset itself hit by a bus error (I2C: raw index 0 = command write, 1 = event read)
+            k = rng.randrange(2)
+            out.append(case('rf%d' % i, 'i2c', hist + ['reset !%d' % k] + follow[:3], hdr))
     return out
 
 
@@ -659,6 +721,11 @@ def stream_ctor(rng, tier):
             ops = ['id', 'acc', 'acc odr:4 scale:1', 'tap', 'pin int1:1 int2:1', rand_request(rng)] if idv == 0x90 else ['id']
             out.append(case('n%d' % n, ctor, ops, 'low=' + hexs(low)))
             n += 1
+            if ctor != 'i2c':
+                # the throw-away read (chip still in I2C mode) returns an unrelated byte
+                for dummy in (0x90, idv ^ 0xFF, 0x00):
+                    out.append(case('n%d' % n, ctor, ['id'], 'low=%s dummy=%02x' % (hexs(low), dummy)))
+                    n += 1
     # first request per block from a fresh driver: reset values -> nothing; others -> exactly the differing registers
     firsts = ['acc odr:4 scale:1 osr:0 pm:0 osrlp:0 bw:0 src:0', 'pin int1:1 int2:1', 'tap min:0 dtap:1 max:2 axis:2 sens:0',
               'int', 'fifo wm:0 axes:0,0,0', 'alp timeout:0', 'awk period:0', 'wkup n:1 thr:0', 'ori thr:0',
